@@ -584,3 +584,85 @@ Proof.
   intros X. split; [exact (exit0_image_written a e d X)|].
   apply exit0_render in X. destruct X as [sz [T [R _]]]. exact (render_ok_dims a e sz d R).
 Qed.
+
+(* ---- round 4, 2nd pass: the hand-written render_svg IS the interpretation of the source-derived skeleton ------------ *)
+Theorem render_svg_is_skeleton a e ds : render_svg a e ds = run_render a e ds.
+Proof.
+  unfold render_svg, run_render.
+  change c20_render_export with [RsLookup "SVG doesn't have '{}' ID"; RsNodeBox "node has zero size"; RsFit SrcNode "target size is zero"; RsAlloc; RsRenderNode]%string.
+  change c20_render_export_page with [RsFit SrcDoc "target size is zero"; RsAlloc; RsDraw]%string.
+  change c20_render_normal with [RsFit SrcDoc "target size is zero"; RsAlloc; RsRender]%string.
+  change c20_render_normal_drawing with [RsTrim].
+  destruct (a_export_id a).
+  - destruct (a_area_page a); cbn [app run_rsteps rstep_sem rs_size rs_canvas];
+      destruct (e_node e) as [| |x y w h]; try reflexivity;
+      destruct (fit_to_size (the_fit a) (to_int_size w h)) as [size|]; try reflexivity;
+      cbn [rs_size rs_canvas]; destruct (canvas_ok e size); cbn [negb rs_size rs_canvas]; try reflexivity.
+    destruct (fit_to_size (the_fit a) (to_int_size (fst ds) (snd ds))) as [psize|]; try reflexivity.
+    cbn [rs_size rs_canvas]. destruct (canvas_ok e psize); reflexivity.
+  - destruct (a_area_drawing a); cbn [app run_rsteps rstep_sem rs_size rs_canvas];
+      destruct (fit_to_size (the_fit a) (to_int_size (fst ds) (snd ds))) as [size|]; try reflexivity;
+      cbn [rs_size rs_canvas]; destruct (canvas_ok e size); cbn [negb rs_size rs_canvas]; try reflexivity.
+    destruct (trim (the_fit a) (to_int_size (fst ds) (snd ds)) size (e_content e)); reflexivity.
+Qed.
+
+Lemma render_msgs : render_msgs_ok = true.
+Proof. vm_compute. reflexivity. Qed.
+
+(* every fallible step of render_svg comes before the pixels are drawn into the final canvas is irrelevant for the
+   output file: render_svg returns a value, the file is written by `process` afterwards (steps_write_last). What the
+   skeleton adds: in every branch each canvas allocation is preceded by the fit that computes its size. *)
+Fixpoint alloc_after_fit (l : list rstep) (have : bool) : bool :=
+  match l with
+  | [] => true
+  | RsFit _ _ :: r => alloc_after_fit r true
+  | RsAlloc :: r => have && alloc_after_fit r false
+  | _ :: r => alloc_after_fit r have
+  end.
+Lemma render_allocs_follow_fits :
+  alloc_after_fit (c20_render_export ++ c20_render_export_page) false = true /\
+  alloc_after_fit (c20_render_normal ++ c20_render_normal_drawing) false = true.
+Proof. split; vm_compute; reflexivity. Qed.
+
+(* ---- the node's place on the page (--export-id with --export-area-page): source-derived expression ----------------- *)
+From Coq Require Import Qabs.
+Lemma Qtrunc_spec q : (Qabs (zq (Qtrunc q) - q) < 1)%Q /\ ((0 <= q)%Q -> (zq (Qtrunc q) <= q)%Q) /\ ((q < 0)%Q -> (q <= zq (Qtrunc q))%Q).
+Proof.
+  unfold Qtrunc, zq. destruct (Qle_bool 0 q) eqn:E.
+  - apply Qle_bool_iff in E. pose proof (Qfloor_le q) as F1. pose proof (Qlt_floor q) as F2.
+    rewrite inject_Z_plus in F2. change (inject_Z 1) with 1%Q in F2.
+    split; [apply Qabs_case; intros; lra|]. split; intros; lra.
+  - assert (q < 0)%Q as N. { apply Qnot_le_lt. intro H. apply Qle_bool_iff in H. congruence. }
+    pose proof (Qle_ceiling q) as C1. pose proof (Qceiling_lt q) as C2.
+    assert (C3 : (inject_Z (Qceiling q - 1) == inject_Z (Qceiling q) - 1)%Q) by (unfold Z.sub; rewrite inject_Z_plus; reflexivity). rewrite C3 in C2.
+    split; [apply Qabs_case; intros; lra|]. split; intros; lra.
+Qed.
+
+Theorem page_offset_is_scaled_origin bbox t :
+  page_offset_gen bbox t = (sat_i32 (Qtrunc (rx bbox * t_sx t)%Q), sat_i32 (Qtrunc (ry bbox * t_sy t)%Q)).
+Proof. reflexivity. Qed.
+
+(* for every fractional origin and zoom whose product fits i32: the pixel position is the scaled origin rounded toward
+   zero, less than one pixel away from it *)
+Theorem page_offset_within_pixel bbox t : in_i32 (Qtrunc (rx bbox * t_sx t)%Q) = true -> in_i32 (Qtrunc (ry bbox * t_sy t)%Q) = true ->
+  (Qabs (zq (fst (page_offset_gen bbox t)) - rx bbox * t_sx t) < 1)%Q /\
+  (Qabs (zq (snd (page_offset_gen bbox t)) - ry bbox * t_sy t) < 1)%Q.
+Proof.
+  intros X Y. rewrite page_offset_is_scaled_origin. cbn [fst snd].
+  unfold in_i32 in X, Y. b2p.
+  assert (Ex : sat_i32 (Qtrunc (rx bbox * t_sx t)) = Qtrunc (rx bbox * t_sx t)) by (unfold sat_i32; lia).
+  assert (Ey : sat_i32 (Qtrunc (ry bbox * t_sy t)) = Qtrunc (ry bbox * t_sy t)) by (unfold sat_i32; lia).
+  rewrite Ex, Ey. split; apply Qtrunc_spec.
+Qed.
+
+(* the hand-written page_offset of Model/Cli.v = the generated expression *)
+Lemma page_offset_hand_is_gen a docsize x y w h :
+  page_offset a docsize x y w h = page_offset_gen {| rx := x; ry := y; rw := w; rh := h |} (export_ts a docsize w h).
+Proof. reflexivity. Qed.
+
+Lemma main_exit_code : (c20_main_err_exit = 1 /\ (forall k, outcome_code (Exit1 k) = 1) /\ (forall d, outcome_code (Exit0 d) = 0))%Z.
+Proof. repeat split. Qed.
+
+Theorem run_render_ok_dims a e sz d : run_render a e sz = ROk d ->
+  (0 < is_w d <= MAX_PIXMAP_W /\ 0 < is_h d <= U32_MAX)%Z.
+Proof. rewrite <- render_svg_is_skeleton. apply render_ok_dims. Qed.
